@@ -44,6 +44,18 @@ def focus_c05(proj, rng, steps):
         steps.append(H.step_run(proj, pats))
         steps[-1]["agree_with"] = (None, len(steps) - 2)
     steps.append(H.step_status(proj))
+    if rng.random() < 0.5:
+        steps.append(H.step_info(proj, [rng.choice(names)] if rng.random() < 0.3 else [], rng.choice(["json", "json", "pretty"])))
+
+
+def focus_c03(proj, rng, steps):
+    """the dependency relation as shown to the user, next to what the scheduler acts on"""
+    names = [t["name"] for t in proj.targets]
+    steps.append(H.step_info(proj, [], "json"))
+    steps.append(H.step_info(proj, [], "pretty"))
+    steps.append(H.step_info(proj, rng.sample(names, min(len(names), 2)), "json"))
+    steps.append(H.step_status(proj))
+    steps.append(H.step_dry(proj))
 
 
 def focus_invalid(proj, rng, steps):
@@ -74,7 +86,12 @@ def focus_invalid(proj, rng, steps):
         t = rng.choice(ts)
         t["inputs"] = gen.flatten_shape(t["inputs"]) + ["no/such/source"]
     proj.write()
+    # logs left by earlier runs, some of a target that is no longer part of the workflow
+    for n in names[:2] + ["RemovedTarget"]:
+        for ext in (".stdout", ".stderr"):
+            proj.put_file(os.path.join(".gwf", "logs", n + ext), content="log of %s\n" % n)
     steps.append(H.step_status(proj))
+    steps.append(H.step_info(proj))
     steps.append(H.step_dry(proj))
     steps.append(H.step_run(proj, rand_patterns(rng, names) if rng.random() < 0.5 else []))
     steps.append(H.step_touch(proj))
@@ -180,7 +197,7 @@ def focus_c18(proj, rng, steps):
     steps.append(H.step_status(proj))
 
 
-def drain(proj, rng, ok=True):
+def drain(proj, rng, ok=True, ties=True):
     """the cluster executes every pending/running job in a seeded legal order (biased towards running late
     submissions first); a successful job
     (re)creates its target's declared outputs with a fresh time stamp"""
@@ -206,8 +223,15 @@ def drain(proj, rng, ok=True):
         st["jobs"][j["id"]]["state"] = "completed" if ok else "failed"
         proj.cluster.write(st)
         if ok and j["name"] in by_name:
+            # sometimes the job preserves time stamps (cp -p, a coarse clock): its outputs get exactly the stamp
+            # of its newest input — a tie, which make semantics treats as up to date
+            stamp = None
+            ins = [os.path.join(proj.dir, os.path.normpath(i)) for i in gen.flatten_shape(by_name[j["name"]]["inputs"])]
+            ins = [i for i in ins if os.path.exists(i)]
+            if ties and ins and rng.random() < 0.35:
+                stamp = max(int(os.stat(i).st_mtime) for i in ins)
             for o in gen.flatten_shape(by_name[j["name"]]["outputs"]):
-                proj.put_file(os.path.normpath(o))
+                proj.put_file(os.path.normpath(o), stamp=stamp)
 
 
 def focus_c06(proj, rng, steps):
@@ -240,6 +264,44 @@ def focus_c06(proj, rng, steps):
         steps.append(H.step_status(proj))
 
 
+def focus_c01(proj, rng, steps):
+    """the file- and spec-based decision across invocations: run, drain (sometimes with tied stamps), then edits of a
+    spec, modified sources, deleted outputs, REJECTED submissions (which must not count as having run), each followed
+    by status; no job is left live, so every row is decided by files and recorded specs alone"""
+    import gen
+    st = proj.cluster.read()
+    for j in st["jobs"].values():
+        if j["state"] in ("pending", "running"):
+            j["state"] = rng.choice(["completed", "completed", "failed"])
+    proj.cluster.write(st)
+    if rng.random() < 0.7 and not proj.hashing:
+        proj.config["use_spec_hashes"] = True
+        proj.write()
+    steps.append(H.step_status(proj))
+    steps.append(H.step_run(proj))
+    drain(proj, rng)
+    steps.append(H.step_status(proj))
+    for _ in range(rng.randint(1, 3)):
+        what = rng.choice(["edit", "edit", "source", "delete"])
+        srcs = [s for s in ("src0", "src1") if os.path.exists(os.path.join(proj.dir, s))]
+        outs = [os.path.normpath(o) for t in proj.targets for o in gen.flatten_shape(t["outputs"])
+                if os.path.exists(os.path.join(proj.dir, os.path.normpath(o)))]
+        if what == "edit":
+            edit_spec(proj, rng)
+        elif what == "source" and srcs:
+            proj.put_file(rng.choice(srcs))
+        elif outs:
+            os.remove(os.path.join(proj.dir, rng.choice(outs)))
+        steps.append(H.step_status(proj))
+        if rng.random() < 0.6:
+            steps.append(H.step_run(proj, reject_nth=1))     # the scheduler refuses the first submission: nothing ran
+            steps.append(H.step_status(proj))
+            steps[-1]["unchanged_since"] = len(steps) - 3     # status before the refused run
+        steps.append(H.step_run(proj))
+        drain(proj, rng)
+        steps.append(H.step_status(proj))
+
+
 def progress(proj, rng):
     """the cluster makes some legal progress: a few pending jobs start / finish (ok or not)"""
     st = proj.cluster.read()
@@ -265,7 +327,7 @@ def focus_c07(proj, rng, steps):
 
 
 FOCI = {"C07": focus_c07, "C05": focus_c05, "invalid": focus_invalid, "C15": focus_c15, "C16": focus_c16, "C17": focus_c17,
-        "C18": focus_c18, "C06": focus_c06}
+        "C18": focus_c18, "C06": focus_c06, "C03": focus_c03, "C01": focus_c01}
 
 
 def run_history(job):
@@ -337,6 +399,20 @@ def c06_check(steps, idx, targets):
     return bad
 
 
+def unchanged_check(steps, idx):
+    """a run in which the scheduler accepted nothing leaves every status as it was (nothing ran, nothing was recorded)"""
+    s = steps[idx]
+    before, run = steps[s["unchanged_since"]], steps[idx - 1]
+    if run["kind"] != "run" or run.get("subs") or before["code"] != 0 or s["code"] != 0:
+        return []
+    a, b = H.parse_status_table(before["out"]), H.parse_status_table(s["out"])
+    if a != b:
+        diff = {n: (a.get(n), b.get(n)) for n in set(a) | set(b) if a.get(n) != b.get(n)}
+        msg = "a run whose only submission was refused by the scheduler changed what status reports (before, after): %r" % diff
+        return [("C01", msg), ("C18", msg), ("C05", msg)]
+    return []
+
+
 def run_prop(chk, prop, foci, n_hist, rule, assumptions, nontrivial):
     chk.rule = rule
     chk.assumptions = assumptions
@@ -369,6 +445,9 @@ def run_prop(chk, prop, foci, n_hist, rule, assumptions, nontrivial):
             if "converged_after" in s or s.get("noop_after"):
                 for (p, msg) in c06_check(r["steps"], idx, r["info"]["targets"]):
                     disc.append((p, idx, "converge", msg, ""))
+            if "unchanged_since" in s:
+                for (p, msg) in unchanged_check(r["steps"], idx):
+                    disc.append((p, idx, "refused-run", msg, ""))
         chk.count("history")
         chk.count("steps", len(r["steps"]))
         kinds = [s["kind"] for s in r["steps"]]
@@ -402,4 +481,13 @@ def replay_prop(chk, prop, data, rule):
                 print("step %d agree: [%s] %s" % (idx, p, msg))
                 if p == prop:
                     chk.violation({"kind": "history"}, {"kind": "history", "input": inp, "what": msg})
+        extra = []
+        if "converged_after" in s or s.get("noop_after"):
+            extra += c06_check(r["steps"], idx, r["info"]["targets"])
+        if "unchanged_since" in s:
+            extra += unchanged_check(r["steps"], idx)
+        for (p, msg) in extra:
+            print("step %d: [%s] %s" % (idx, p, msg))
+            if p == prop:
+                chk.violation({"kind": "history"}, {"kind": "history", "input": inp, "what": msg})
     return chk.finish()
